@@ -76,6 +76,12 @@ Theorem C18_sym_SE23 eps X Y e : 0 < eps -> se23_valid X -> se23_valid Y -> 0 < 
   (forall tx ty tz x y z w vx vy vz, g_compose (SE23 RS eps) (g_inverse (SE23 RS eps) Y) X = [tx; ty; tz; x; y; z; w; vx; vy; vz] -> eps < x * x + y * y + z * z /\ w <> 0) ->
   g_isApprox (SE23 RS eps) X Y e = g_isApprox (SE23 RS eps) Y X e.
 Proof. intros H. exact (se23_isApprox_sym eps H X Y e). Qed.
+From Manif Require Import SGal3 Sym_SGal3.
+Theorem C18_sym_SGal3 eps X Y e : 0 < eps -> sg_valid X -> sg_valid Y -> 0 < e ->
+  (forall px py pz x y z w vx vy vz t, g_compose (SGal3 RS eps) (g_inverse (SGal3 RS eps) Y) X = [px; py; pz; x; y; z; w; vx; vy; vz; t] -> eps < x * x + y * y + z * z /\ w <> 0) ->
+  g_isApprox (SGal3 RS eps) X Y e = g_isApprox (SGal3 RS eps) Y X e.
+Proof. intros H. exact (sg_isApprox_sym eps H X Y e). Qed.
+Print Assumptions C18_sym_SGal3.
 (* any group: symmetric whenever log(Z^-1) = -log(Z) for the relative element Z = Y^-1 X *)
 Theorem C18_sym_generic (G : GroupOps RS) (C : GroupCore G) X Y e : gc_valid C X -> gc_valid C Y -> 0 < e ->
   length (rminus_val G X Y) = g_dof G ->
